@@ -3920,7 +3920,18 @@ class Argument(DerivativeTargetBase):
         shape = builder.compile(self.shape)
         out = builder.get_variable_for_evaluable(self)
         block = builder.get_block_for_evaluable(self)
-        block.assign_to(out, _pyast.Variable('numpy').get_attr('asarray').call(builder.get_argument(self.name), dtype=self.ast_dtype))
+        value = builder.get_argument(self.name)
+        block.assign_to(out, _pyast.Variable('numpy').get_attr('asarray').call(value, dtype=self.ast_dtype))
+        if self.dtype in (bool, int):
+            # reject values that do not survive the conversion, e.g. 1.5 for an integer argument
+            block.if_(_pyast.Variable('numpy').get_attr('not_equal').call(out, value).get_attr('any').call()).raise_(
+                _pyast.Variable('ValueError').call(
+                    _pyast.LiteralStr('argument {!r} has the wrong dtype: cannot represent the value as {}').get_attr('format').call(
+                        _pyast.LiteralStr(self.name),
+                        _pyast.LiteralStr(self.dtype.__name__),
+                    ),
+                ),
+            )
         block.if_(_pyast.BinOp(shape, '!=', out.get_attr('shape'))).raise_(
             _pyast.Variable('ValueError').call(
                 _pyast.LiteralStr('argument {!r} has the wrong shape: expected {}, got {}').get_attr('format').call(
